@@ -296,6 +296,13 @@ pub fn memo_ok(b: &Base, pool: Pool, i: u8) -> bool {
     }
 }
 
+pub fn sign_idx(b: &Base, pool: Pool) -> &[usize] {
+    match pool {
+        Pool::Orchard => &b.o_sign_idx,
+        Pool::Ironwood => &b.i_sign_idx,
+    }
+}
+
 fn real_spends(b: &Base, pool: Pool) -> &[usize] {
     match pool {
         Pool::Orchard => &b.o_spend_idx,
@@ -342,7 +349,14 @@ pub fn set_vals(b: &Base, k: &Key) -> u8 {
             _ => 0,
         },
         Key::OAct(pool, i, kind) => match kind {
-            OA::Sig | OA::SpWitness => {
+            OA::Sig => {
+                if sign_idx(b, pool).contains(&(i as usize)) {
+                    2
+                } else {
+                    0
+                }
+            }
+            OA::SpWitness => {
                 if real_spends(b, pool).contains(&(i as usize)) {
                     2
                 } else {
@@ -1144,7 +1158,7 @@ pub fn apply_to(b: &Base, p: Pczt, r: &Recipe) -> Result<Pczt, Fail> {
         let mut hi_o = vec![];
         let mut lo_o = vec![];
         for pool in [Pool::Orchard, Pool::Ironwood] {
-            for idx in real_spends(b, pool) {
+            for idx in sign_idx(b, pool) {
                 if let Some(v) = want(&Key::OAct(pool, *idx as u8, OA::Sig)) {
                     let sig = orchard_sig(b, pool, *idx as u8, v)?;
                     if v == 0 {
